@@ -193,7 +193,9 @@ def c14_6(ctx, r):
     r.check(ok, "SLURM: cancel = run_command(f'scancel {job_id}')", key_of(sm, "scancel"), sm.loc(), f"SlurmManager.cancel_job is `{ctx.src(rx) if rx is not None else None}`", "asked to be canceled")
     cj = ctx.fn("cancel_jobs.cancel_jobs", "C14.6")
     s2 = ctx.some_sites(cj, "C14.6", short="JobSubmitter.cancel_jobs")
-    r.check(len(s2) == 1 and [ctx.src(a) for a in s2[0].node.args] == ["cluster"], "the command cancels on the handle it was promoted with", key_of(cj, "handle"), s2[0].loc, "cancel_jobs is given another cluster handle")
+    from ..lib import bound_from, first_node
+
+    r.check(len(s2) == 1 and len(s2[0].node.args) == 1 and bound_from(ctx, cj, s2[0].node.args[0], first_node(ctx, cj, s2[0].node), "Cluster.deserialize", 0), "the command cancels on the handle it was promoted with", key_of(cj, "handle"), s2[0].loc, "cancel_jobs is given another cluster handle")
     # the handle was loaded with its job status (the ids to cancel)
     ds = ctx.some_sites(cj, "C14.6", short="Cluster.deserialize")
     dz = ctx.fn("Cluster.deserialize")
@@ -208,6 +210,14 @@ def c14_7(ctx, r):
     completion_decision(ctx, r, "C14.7")
     # ... and the commands that run a submitter round reach it for a canceled submission too (the round collects the
     # results recorded before the cancel and forces completion; only the hand-off inside it is gated)
+    ss = ctx.fn("show_status.show_status", "C14.7")
+    for s2 in spawn_sites(ctx, ss, "jade try-submit-jobs"):
+        for n in ctx.nodes_of(ss, s2.node):
+            forms = guard_forms(ctx, ss, n, ALL_KINDS, kill=False)
+            bad = sorted(("" if p else "not ") + f for f, p in forms if "is_canceled" in f)
+            r.check(not bad, "show-status offers the recovery round for a canceled submission too", key_of(ss, "recovery not offered for a canceled submission"), s2.loc,
+                    f"show-status runs try-submit-jobs only under {bad}: after `cancel-jobs --no-complete` (or a completion step that ran while the scheduler was still draining) nothing ever finishes the submission - "
+                    "no results.json, nothing collected, nothing reported missing", "neither in cancel-jobs' own completion step nor in any later try-submit-jobs or show-status ... jobs that never ran are reported missing")
     for spec in ("try_submit_jobs.try_submit_jobs",):
         fn = ctx.fn(spec, "C14.7")
         for s2 in ctx.some_sites(fn, "C14.7", short="JobSubmitter.submit_jobs"):
